@@ -74,7 +74,7 @@ def HX_Eff(Arrangement, Ntu, c, Passes=None, Rows=None, Cmin_Phase=None):
     Ntu = Ntu / Passes
     if Ntu > 0 and c >= 0:
         # Zero capacity ratio: every arrangement reduces to 1 - exp(-NTU); the mixed cross-flow forms divide by c
-        if c == 0 and Arrangement in (HX.CrFMM, HX.CrFMUmax, HX.CrFMUmin):
+        if c == 0 and Arrangement in (HX.CrFMM, HX.CrFMUmax, HX.CrFMUmin, HX.CrFUU):
             eff = 1 - math.exp(-Ntu)
         # Counter Flow - Single Pass Effectiveness
         elif Arrangement == HX.CF:
@@ -97,14 +97,14 @@ def HX_Eff(Arrangement, Ntu, c, Passes=None, Rows=None, Cmin_Phase=None):
         # Cross Flow - Both Streams Mixed Effectiveness
         elif Arrangement == HX.CrFMM:
             eff = (
-                1 / (1 - math.exp(-Ntu)) + c / (1 - math.exp(-Ntu * c)) - 1 / Ntu
+                1 / (1 - math.exp(-Ntu)) + c / -math.expm1(-Ntu * c) - 1 / Ntu
             ) ** -1
         # Cross Flow - Stream Cmax Unmixed Effectiveness
         elif Arrangement == HX.CrFMUmax:
-            eff = 1 - math.exp(-1 / c * (1 - math.exp(-Ntu * c)))
+            eff = 1 - math.exp(1 / c * math.expm1(-Ntu * c))
         # Cross Flow - Stream Cmin Unmixed Effectiveness
         elif Arrangement == HX.CrFMUmin:
-            eff = 1 / c * (1 - math.exp(-c * (1 - math.exp(-Ntu))))
+            eff = -1 / c * math.expm1(-c * (1 - math.exp(-Ntu)))
         # Shell and Tube - One Shell Pass; 2,4,6, etc., Tube Passes Effectiveness
         elif Arrangement == HX.ShellTube:
             d = (1 + c**2) ** 0.5
@@ -155,10 +155,10 @@ def HX_NTU(Arrangement, eff, c, Passes=None):
             Ntu = HX_NTU_Numerical(Arrangement, eff, c)
         # Cross Flow - Stream Cmax Unmixed NTU
         elif Arrangement == HX.CrFMUmax:
-            Ntu = -1 / c * math.log(1 + c * math.log(1 - eff))
+            Ntu = -1 / c * math.log1p(c * math.log(1 - eff))
         # Cross Flow - Stream Cmin Unmixed NTU
         elif Arrangement == HX.CrFMUmin:
-            Ntu = -math.log(1 + 1 / c * math.log(1 - eff * c))
+            Ntu = -math.log1p(1 / c * math.log1p(-eff * c))
         # Shell and Tube - One Shell Pass; 2,4,6, etc., Tube Passes NTU
         elif Arrangement == HX.ShellTube:
             D1 = 1 + c - (1 + c**2) ** (1 / 2)
